@@ -56,7 +56,7 @@ fn main() {
                 only: None,
                 trace: false,
                 scale: 1.0,
-                case_timeout_s: 20,
+                case_timeout_s: 90,
                 max_wall_s: 0,
             };
             let mut i = 2;
@@ -80,7 +80,7 @@ fn main() {
                         i += 1;
                     }
                     "--scale" => { ra.scale = val.parse().unwrap_or(1.0); i += 1; }
-                    "--case-timeout" => { ra.case_timeout_s = val.parse().unwrap_or(20); i += 1; }
+                    "--case-timeout" => { ra.case_timeout_s = val.parse().unwrap_or(90); i += 1; }
                     "--max-wall" => { ra.max_wall_s = val.parse().unwrap_or(0); i += 1; }
                     "--trace" => { ra.trace = true; }
                     other => { eprintln!("unknown argument {}", other); std::process::exit(2); }
